@@ -72,10 +72,12 @@ def apply_transform(kind, v):
   return TRANSFORMS[kind](v)
 
 
-def make_diag_phase(ctx, internal=False, attach_names=()):
+def make_diag_phase(ctx, internal=False, attach_names=(), first_run_only=False):
   """An earlier phase whose diagnoser yields R0 (as a regular or as an internal diagnosis):
   activates conditional validators."""
-  d = bodies.ScriptedPhaseDiagnoser(ctx, {'name': 'dpre', 'outs': [[[0, 0]]], 'internal': internal})
+  # (first_run_only: the result is issued by the first execution of the Test only)
+  d = bodies.ScriptedPhaseDiagnoser(ctx, {'name': 'dpre', 'outs': [[[0, 0]], []] if first_run_only else [[[0, 0]]],
+                                          'internal': internal})
 
   def diagphase(test):
     ctx.ev('body_start', 'diagphase', 1)
